@@ -4,15 +4,16 @@ SPEC = {
     "props": "PlzVerif/Props/C07.lean",
     "extract": ["c08", "c07"],
     "harness": "c07",
-    "driver": "Driver/C08.lean",
+    "driver": "Driver/C07.lean",
     "needs_plz": True,
     "level": "proof",
     "level_text": "C07_rule (full, unbounded): the rule-hash pre-image is invariant under every permutation of every map-typed field "
                   "(Provides, Env, EntryPoints, Commands, named sources/outputs/data) and of the dependency insertion order, for the "
                   "schema and the per-accessor sort facts regenerated from ruleHash / hashMap / DeclaredDependencies / DeclaredOutputNames "
                   "/ allBuildInputs / getCommand on this run (C07_facts_ok: every map range is sorted or an order-insensitive maximum); "
-                  "C07_sort_needed shows each sort is necessary. One part of 'the hash is a function of the repository' is DISPROVED: "
-                  "C07_witness_hash_check (UnprefixedHashes rewrites target.Hashes), with C07_partial_hash_check for where it holds. "
+                  "C07_sort_needed shows each sort is necessary. C07_hash_check_stable (full): output-hash checking leaves the rule hash of an unchanged target alone - true "
+                  "since fix 656076b (UnprefixedHashes works on a copy; regenerated fact unprefixedAliases=false); the repaired defect "
+                  "is kept as C07_witness_hash_check_aliasing / C07_partial_hash_check_aliasing about the old fact value. "
                   "Source and config hashes, parsing and scheduling are not modelled: they are covered only by the end-to-end oracle "
                   "(plz hash --detailed repeated with -n 1 / -n 16, permuted target order and //...).",
     "technique": "Lean 4 theorems (sorted-permutation uniqueness) over the rule-hash model + regenerated sort facts + in-process "
@@ -20,7 +21,7 @@ SPEC = {
     "trusted": [
         "go/ast extractors harness/extract/c08 (write schema, sort flags per accessor) and harness/extract/c07 (classification of every "
         "range over a map-typed expression in the functions behind the rule hash; map types recognised syntactically)",
-        "correspondence harness/cmd/c07 (verif/harness/rulehash) vs Driver/C08.lean: real build.RuleHash under shuffled insertion orders, "
+        "correspondence harness/cmd/c07 (verif/harness/rulehash) vs Driver/C07.lean: real build.RuleHash under shuffled insertion orders, "
         "from concurrent goroutines and repeatedly on one target, against sha1 of the model pre-image of each encoding",
         "end-to-end oracle: the real plz binary on generated repositories (no model counterpart)",
         "SHA-1 idealised as injective; Go map keys are distinct (MapsOK)",
@@ -41,5 +42,6 @@ Dry-runs on a scratch copy (VERIF_REPO=/var/tmp/mC07 ./check C07 quick):
     (dependencies added in another order hash differently).
  M3 hashMap: drop `sort.Strings(keys)` -> exit 1, in-process and end-to-end failing inputs.
  M4 allBuildInputs: drop `sort.Strings(keys)` -> exit 1, in-process and end-to-end failing inputs (named sources).
- M5 harmless: rename provideKeys -> langs -> exit 0 (phase-3 log).
+ M5 harmless: rename provideKeys -> langs -> exit 0.
+ M6 (after fix 656076b) re-introduce the aliasing: `hashes := target.Hashes[:]` in UnprefixedHashes -> see below.
 """
